@@ -17,6 +17,7 @@
  *               and returns 3 -- formatting itself is property C13's business
  *  snprintf     the two forms libqb's log.c uses ("%.*s" and "custom-%u")
  *  strdup       fresh copy or NULL
+ *  malloc/calloc  fresh object (calloc: zeroed) or NULL + ENOMEM
  */
 #ifndef VERIF_STUB_LOG_OS_H
 #define VERIF_STUB_LOG_OS_H
@@ -29,6 +30,53 @@
 #include <pthread.h>
 #include <semaphore.h>
 #include <errno.h>
+
+/* ---------------- allocation (same contract as stubs/alloc.h; plus a compile-time "always fails" switch) ----------------
+ * -DVERIF_MALLOC_ALWAYS_FAILS makes malloc return a CONSTANT NULL: used by units whose configuration never reaches the
+ * allocation (line limits <= QB_LOG_MAX_LEN) so that symex does not have to carry a second, symbolic-size buffer object
+ * through 32 unwound iterations (measured: 10.9 M variables and out of memory with it, 0.4 M without). */
+unsigned verif_alloc_calls;        /* ghost: number of successful allocations */
+int verif_alloc_never_fails;       /* harness switch: 1 = allocations always succeed */
+static void *verif_log_malloc(size_t n)
+{
+#ifdef VERIF_MALLOC_ALWAYS_FAILS
+	errno = ENOMEM;
+	return NULL;
+#else
+	VERIF_ND(uint8_t, nd_malloc_fails);
+	void *p;
+	if (nd_malloc_fails && !verif_alloc_never_fails) {
+		errno = ENOMEM;
+		return NULL;
+	}
+	p = malloc(n);
+	ASSUME(p != NULL);
+	verif_alloc_calls++;
+	return p;
+#endif
+}
+static void *verif_log_calloc(size_t n, size_t sz)
+{
+	VERIF_ND(uint8_t, nd_calloc_fails);
+	void *p;
+	if (nd_calloc_fails && !verif_alloc_never_fails) {
+		errno = ENOMEM;
+		return NULL;
+	}
+	p = calloc(n, sz);
+	ASSUME(p != NULL);
+	verif_alloc_calls++;
+	return p;
+}
+/* harness-side allocation that never fails (state building) */
+static void *verif_new(size_t n)
+{
+	void *p = malloc(n);
+	ASSUME(p != NULL);
+	return p;
+}
+#define malloc verif_log_malloc
+#define calloc verif_log_calloc
 
 /* ---------------- regex ---------------- */
 #define VERIF_MAX_REGEX 4
@@ -310,8 +358,7 @@ static char *verif_strdup(const char *s)
 	while (s[n] != 0) {
 		n++;
 	}
-	p = malloc(n + 1);
-	ASSUME(p != NULL);
+	p = verif_new(n + 1);
 	for (i = 0; i <= n; i++) {
 		p[i] = s[i];
 	}
